@@ -103,8 +103,9 @@ Example es_bulk_example :
 Proof. split; reflexivity. Qed.
 
 Example otlp_example :
-  otlp_map [("service.name", "api"); ("k8s.pod", "p1")]%string [] [("service.name", "web"); ("9lives", "y"); ("", "e")]%string "WARN" =
-  [("service_name", "web"); ("k8s_pod", "p1"); ("_9lives", "y"); ("_", "e"); ("level", "WARN")]%string.
+  otlp_map [("service.name"%string, OStr "api"); ("k8s.pod"%string, OStr "p1"); ("retries"%string, OInt (-3))] []
+           [("service.name"%string, OStr "web"); ("9lives"%string, OBool true); (""%string, OStr "e")] "WARN" =
+  [("service_name", "web"); ("k8s_pod", "p1"); ("retries", "-3"); ("_9lives", "true"); ("_", "e"); ("level", "WARN")]%string.
 Proof. reflexivity. Qed.
 
 (* not sanitized: the same content through Loki gets other names, hence another series *)
